@@ -522,7 +522,8 @@ func TimeoutWithCodeHandler(h RequestHandler, timeout time.Duration, msg string,
 		select {
 		case <-ch:
 		case <-ctx.timeoutTimer.C:
-			ctx.TimeoutErrorWithCode(msg, statusCode)
+			// The handler is still running: it must not replace this response.
+			ctx.timeoutErrorWithCode(msg, statusCode, true)
 		}
 		stopTimer(ctx.timeoutTimer)
 	}
@@ -644,6 +645,16 @@ type RequestCtx struct {
 	timeoutResponse *Response
 	timeoutCh       chan struct{}
 	timeoutTimer    *time.Timer
+
+	// timeoutMu guards timeoutResponse and timeoutSealed: a handler that is
+	// still running after it timed out may call TimeoutError* while the
+	// server picks the timeout response up.
+	timeoutMu sync.Mutex
+
+	// timeoutSealed is set once the timeout response has been decided
+	// (TimeoutHandler's timeout fired or the server has picked the response up).
+	// Later TimeoutError* calls are ignored.
+	timeoutSealed bool
 
 	hijackHandler HijackHandler
 	formValueFunc FormValueFunc
@@ -1701,10 +1712,14 @@ func (ctx *RequestCtx) TimeoutError(msg string) {
 // Usage of this function is discouraged. Prefer eliminating ctx references
 // from pending goroutines instead of using this function.
 func (ctx *RequestCtx) TimeoutErrorWithCode(msg string, statusCode int) {
+	ctx.timeoutErrorWithCode(msg, statusCode, false)
+}
+
+func (ctx *RequestCtx) timeoutErrorWithCode(msg string, statusCode int, seal bool) {
 	var resp Response
 	resp.SetStatusCode(statusCode)
 	resp.SetBodyString(msg)
-	ctx.TimeoutErrorWithResponse(&resp)
+	ctx.setTimeoutResponse(&resp, seal)
 }
 
 // TimeoutErrorWithResponse marks the ctx as timed out and sends the given
@@ -1718,9 +1733,32 @@ func (ctx *RequestCtx) TimeoutErrorWithCode(msg string, statusCode int) {
 // Usage of this function is discouraged. Prefer eliminating ctx references
 // from pending goroutines instead of using this function.
 func (ctx *RequestCtx) TimeoutErrorWithResponse(resp *Response) {
+	ctx.setTimeoutResponse(resp, false)
+}
+
+// setTimeoutResponse sets the timeout response unless it has been sealed.
+// With seal set, later TimeoutError* calls on ctx are ignored.
+func (ctx *RequestCtx) setTimeoutResponse(resp *Response, seal bool) {
 	respCopy := &Response{}
 	resp.CopyTo(respCopy)
-	ctx.timeoutResponse = respCopy
+	ctx.timeoutMu.Lock()
+	if !ctx.timeoutSealed {
+		ctx.timeoutResponse = respCopy
+		ctx.timeoutSealed = seal
+	}
+	ctx.timeoutMu.Unlock()
+}
+
+// takeTimeoutResponse returns the response set via TimeoutError* call, if any.
+// Once a response is returned, later TimeoutError* calls on ctx are ignored.
+func (ctx *RequestCtx) takeTimeoutResponse() *Response {
+	ctx.timeoutMu.Lock()
+	resp := ctx.timeoutResponse
+	if resp != nil {
+		ctx.timeoutSealed = true
+	}
+	ctx.timeoutMu.Unlock()
+	return resp
 }
 
 // NextProto adds nph to be processed when key is negotiated when TLS
@@ -2659,7 +2697,7 @@ func (s *Server) serveConnCounted(c net.Conn, countConcurrency bool) error {
 			s.Handler(ctx)
 		}
 
-		timeoutResponse = ctx.timeoutResponse
+		timeoutResponse = ctx.takeTimeoutResponse()
 		if timeoutResponse != nil {
 			// Acquire a new ctx because the old one will still be in use by the timeout out handler.
 			ctx = s.acquireCtx(c)
@@ -2899,7 +2937,10 @@ func (c *hijackConn) Close() error {
 //
 // This function is intended for custom server implementations.
 func (ctx *RequestCtx) LastTimeoutErrorResponse() *Response {
-	return ctx.timeoutResponse
+	ctx.timeoutMu.Lock()
+	resp := ctx.timeoutResponse
+	ctx.timeoutMu.Unlock()
+	return resp
 }
 
 func writeResponse(ctx *RequestCtx, w *bufio.Writer) error {
